@@ -298,6 +298,11 @@ def random_world(rng: Any, idx: int) -> dict[str, Any]:
         tree.append(pkg(f"rvp{idx}x", 2))
     if rng.random() < 0.5:
         tree.append(leaf(f"rvp{idx}_m"))
+    # two distinct check modules that report under the SAME error code (copy-pasted ErrorInfo): both are checks of their own
+    lv = [n for _d, n in walk_world(tree) if n["k"] == "leaf"]
+    if len(lv) >= 2 and rng.random() < 0.5:
+        a, b = rng.sample(lv, 2)
+        b["code"] = a["code"]
     return {"id": f"rand{idx}", "tree": tree, "ep": None}
 
 
@@ -653,14 +658,20 @@ def judge(world: dict[str, Any], wdir: Path, targets: list[str], flags: list[str
             sig.update({"shapes": culprits, "targets": tclass})
         out.append((f"selected checks {culprits} passed validation but the run ends with {other[0][:160]!r} (exit {obs['rc']})", sig, {"stdout": "diagnostics only", "each_selected_valid_check": "called once per matching node"}))
         return out
+    # several selected modules may share one error code: the diagnostics of a code are those of all of them
+    want_by_code: Counter = Counter()
+    for d, n in sel.items():
+        sh = SHAPE[n["shape"]]
+        if not (sh["spec"] == "nocheck" or not sh["types"]):
+            want_by_code[n["code"]] += sum(NODE_COUNTS[t] for t in sh["types"])
     for d, n in sel.items():
         sh = SHAPE[n["shape"]]
         if sh["spec"] == "nocheck" or not sh["types"]:
-            if calls[d] or dcount[n["code"]]:
+            if calls[d] or (dcount[n["code"]] and not want_by_code[n["code"]]):
                 out.append((f"module {d} has no usable check but was called", {"kind": "nocheck-called", "shape": n["shape"]}, {"calls": 0}))
             continue
         want = sum(NODE_COUNTS[t] for t in sh["types"])
-        if dcount[n["code"]] != want or calls[d] != want:
+        if dcount[n["code"]] != want_by_code[n["code"]] or calls[d] != want:
             out.append((
                 f"check {d} ({n['shape']}) selected via targets {targets} [{tclass}] flags {flags}: {dcount[n['code']]} diagnostics and {calls[d]} calls, required {want} each",
                 {"kind": "diagnostics-not-once", "targets": tclass, "ratio": f"{dcount[n['code']]}/{want}"},
